@@ -11,6 +11,11 @@ if only:
     seeds = [s for s in seeds if s in only or s.split("-")[0] in only]
 def run(s):
     prop = s.split("-")[0]
+    try:
+        # a change that breaks one property may be caught by the check of another one (meta.json "check")
+        prop = json.load(open(os.path.join(V, "seeded", s, "meta.json"))).get("check", prop)
+    except Exception:
+        pass
     p = subprocess.run(["bash", os.path.join(V, "tools", "seedrun.sh"), os.path.join(V, "seeded", s), prop, "quick"], stdout=subprocess.PIPE, stderr=subprocess.STDOUT, text=True, env=dict(os.environ, SEED_LINES="400"))
     out = p.stdout
     det = ("VIOLATION property=%s" % prop) in out and "exit 1" in out
